@@ -9,7 +9,8 @@
 (*      the set, the PTR) with TTL 0 or 2 s, either flush bit, in a packet    *)
 (*      that is for us or not,                                                *)
 (*   3. at once, one or two seconds later one of: eviction, verify request,   *)
-(*      each of the four refresh look-ups, removal of the type,               *)
+(*      each of the four refresh look-ups, removal of the type, removal of    *)
+(*      the interface, of its IPv4 addresses, a look-up of known answers,     *)
 (*   4. a second later an eviction.                                           *)
 (* For every sequence the model's final state is checked here against the     *)
 (* statement-level table (Heard.tla) and printed; the harness replays the     *)
@@ -24,7 +25,7 @@ MC == INSTANCE MCCache WITH MaxArr <- 0, MaxTime <- 0, FlushVaries <- TRUE, Kind
 
 X1 == {"P", "PS", "S1", "A1"}
 Y2 == {"P", "S1", "S2", "A1", "A2"}
-Ops3 == {"evict", "verify", "rptr", "rsrvtxt", "rhosts", "rhostname", "forget"}
+Ops3 == {"evict", "verify", "rptr", "rsrvtxt", "rhosts", "rhostname", "forget", "dropintf", "dropaddrs", "knownptr", "knownaddr"}
 VARIABLES x, y, o
 Init == /\ x \in [kind : X1, ttl : {1, 2}, fl : BOOLEAN]
         /\ y \in [dt : {500, 1500}, kind : Y2, ttl : {0, 2}, fl : BOOLEAN, fu : BOOLEAN]
@@ -45,7 +46,10 @@ C3 == CASE o.k = "evict" -> C!Evict(C2, T3).c
         [] o.k = "rsrvtxt" -> C!RefreshSrvTxt(C2, MC!TY, T3).c
         [] o.k = "rhosts" -> C!RefreshHosts(C2, MC!TY, T3).c
         [] o.k = "rhostname" -> C!RefreshHostname(C2, MC!HO, T3).c
-        [] OTHER -> C!Forget(C2, MC!TY)
+        [] o.k = "forget" -> C!Forget(C2, MC!TY)
+        [] o.k = "dropintf" -> C!DropIntf(C2, 2).c
+        [] o.k = "dropaddrs" -> C!DropAddrs(C2, 2, TRUE, FALSE)
+        [] OTHER -> C2
 C4 == C!Evict(C3, T4).c
 H1 == H!Arrive(<<>>, MC!HRec(x.kind, x.ttl, x.fl), 2, T1, TRUE)
 H2 == H!Arrive(H1, MC!HRec(y.kind, y.ttl, y.fl), 2, T2, y.fu)
@@ -54,7 +58,7 @@ H3 == IF o.k = "verify" THEN H!Shorten(H2, MC!IN1, T3 + 1000, T3) ELSE H2
 Holds == /\ \A s \in {C1, C2, C3, C4} : C!WellFormed(s) /\ C!KeysNeeded(s) /\ C!SubsNeeded(s)
          /\ \A id \in C!Ids(C2) : C2.recs[id].expires <= H2[MC!HId(id)].exp /\ C2.recs[id].expires >= H2[MC!HId(id)].vexp
          /\ \A id \in C!Ids(C4) : C4.recs[id].expires <= H3[MC!HId(id)].exp /\ C4.recs[id].expires >= H3[MC!HId(id)].vexp
-         /\ (o.k # "forget" => \A id \in DOMAIN H3 : (H3[id].forus /\ T4 < H3[id].vexp) => \E z \in C!Ids(C4) : MC!HId(z) = id)
+         /\ (o.k \notin {"forget", "dropintf", "dropaddrs"} => \A id \in DOMAIN H3 : (H3[id].forus /\ T4 < H3[id].vexp) => \E z \in C!Ids(C4) : MC!HId(z) = id)
 EmitCase == PrintT(<<"CASE", ToJson([ops |-> <<
       [k |-> "recv", dt |-> 0, if |-> 2, fu |-> TRUE, recs |-> <<[kind |-> x.kind, ttl |-> x.ttl, fl |-> x.fl]>>],
       [k |-> "recv", dt |-> y.dt, if |-> 2, fu |-> y.fu, recs |-> <<[kind |-> y.kind, ttl |-> y.ttl, fl |-> y.fl]>>],
